@@ -160,6 +160,12 @@ std::vector<std::string> live_owners(int op_index) {
 	return v;
 }
 
+bool in_live_library_block(const void *p) {
+	if (!g_ready) return false;
+	Block *b = find_containing((uintptr_t)p, nullptr);
+	return b && b->state == ST_LIVE;
+}
+
 bool addr_was_reused(const void *p) {
 	Block *b = find_containing((uintptr_t)p, nullptr);
 	return b && b->reused;
